@@ -994,6 +994,8 @@ def execute(case, stats, known):
 def preflight(seed, tier, known):
     import random
 
+    from sim.core import classify_exception
+
     import ural.tld as tld
     import ural.tld_data as data
 
@@ -1020,12 +1022,28 @@ def preflight(seed, tier, known):
         n += 1
         form = FORMS[n % len(FORMS)]
         stats.checks += 1
-        d = discrepancy(api, rules, labels, form)
+        crashed = None
+        try:
+            d = discrepancy(api, rules, labels, form)
+        except Exception as exc:  # noqa: an exception escaping from ural code is a violation, anything else a harness error
+            crashed = classify_exception(exc)
+            if crashed is None:
+                raise
+            d = {"invariant": "unexpected_exception", "got": None, "expected": None, "host": ".".join(labels), "form": form}
         distinct.add(labels)
-        if n % 9000 == 1:
+        if n % 9000 == 1 and crashed is None:
             sample.append({"host": ".".join(labels), "form": form, "split_suffix": r(api.split(render(labels, form)))})
         probes_for(stats, rules, labels)
         if d is None:
+            continue
+        if crashed is not None:
+            klass = crashed.klass()
+            if klass in seen_classes:
+                continue
+            seen_classes.add(klass)
+            case = {"config": {"klass": "boot_query"}, "events": [{"op": "boot_query", "host": list(labels), "form": form}]}
+            crashed.seq = 0
+            violations.append((-1 - len(violations), case, crashed.record(NAME), klass))
             continue
         finding = known.match(NAME, dict(d, op="boot_query", rules=None))
         if finding is not None:
